@@ -12,8 +12,8 @@
 (* integers (module Big), the exact value S of the polynomial and the sum  *)
 (* A of the absolute values of its monomials, and accepts the component    *)
 (* iff          |got - S| <= K(op) * u * A ,    u = 2^-24 (f32), 2^-53 (f64)*)
-(* where K(op) is the number of roundings on the longest evaluation path   *)
-(* of any reasonable evaluation order, plus a margin of two.               *)
+(* where K(op) is about twice the number of roundings on the longest       *)
+(* evaluation path of any reasonable evaluation order.                     *)
 (* A wrong lane, sign, shuffle constant or operand order changes the       *)
 (* result by a whole monomial, i.e. by about A / (number of monomials).    *)
 (***************************************************************************)
@@ -96,14 +96,14 @@ DV(s) == [i \in 1..Len(s) |-> DecD(s[i])]
 DM(m) == [c \in 1..Len(m) |-> DV(m[c])]
 PBits(ev) == IF ev.f = 32 THEN 24 ELSE 53
 
-\* K: roundings on the longest path + 2
+\* K: about twice the number of roundings on the longest path
 KOf(op, n) ==
-    CASE op \in {"dot", "mul_vec", "mat_mul", "length_squared"} -> n + 3
-      [] op \in {"cross", "perp_dot"} -> 5
-      [] op = "affine_point" -> n + 4
-      [] op = "det" -> IF n = 2 THEN 5 ELSE IF n = 3 THEN 8 ELSE 14
-      [] op = "quat_mul" -> 7
-      [] op = "quat_rot" -> 14
+    CASE op \in {"dot", "mul_vec", "mat_mul", "length_squared"} -> n + 5
+      [] op \in {"cross", "perp_dot"} -> 6
+      [] op = "affine_point" -> n + 6
+      [] op = "det" -> IF n = 2 THEN 6 ELSE IF n = 3 THEN 12 ELSE 24
+      [] op = "quat_mul" -> 10
+      [] op = "quat_rot" -> 20
 
 Ok(ev) ==
     LET pb == PBits(ev) IN
